@@ -875,9 +875,48 @@ func runFloater(c *vlib.Case, rng *rand.Rand, d *disc, allowOwn bool) *floaterCa
 	}
 	var solver numerical.LargeLinearSolver
 	sdesc := "solver=nil"
-	if rng.Intn(4) == 0 {
+	checkDefault := func(ds *numerical.BiCGSTABSolver) bool {
+		c.Count("floater.default_solver_descriptors_checked", 1)
+		if ds == nil || ds.MaxIters != model3d.Floater97DefaultMaxIters || ds.MSETolerance != model3d.Floater97DefaultMSETol || ds.MAETolerance != 0 {
+			c.Violation("model3d.Floater97DefaultSolver/default-configuration", fmt.Sprintf("Floater97DefaultSolver() returned %+v, the documented defaults are MaxIters=%d MSETolerance=%g", ds, model3d.Floater97DefaultMaxIters, model3d.Floater97DefaultMSETol), d.s.witness())
+			return false
+		}
+		return true
+	}
+	switch rng.Intn(8) {
+	case 0, 1:
 		solver = &numerical.BiCGSTABSolver{MaxIters: model3d.Floater97DefaultMaxIters, MSETolerance: model3d.Floater97DefaultMSETol}
 		sdesc = "solver=BiCGSTAB(default constants)"
+	case 2:
+		// the other documented stopping rule: mean absolute error
+		solver = &numerical.BiCGSTABSolver{MaxIters: model3d.Floater97DefaultMaxIters, MAETolerance: 1e-9}
+		sdesc = "solver=BiCGSTAB(MAETolerance=1e-9)"
+		c.Count("floater.solver.mae_stopping_rule", 1)
+	case 3:
+		ds := model3d.Floater97DefaultSolver()
+		if !checkDefault(ds) {
+			return nil
+		}
+		solver = ds
+		sdesc = "solver=Floater97DefaultSolver()"
+	case 4:
+		// history: an earlier caller took the default solver, loosened it for a quick preview and
+		// used it; this call passes nil and must get the documented default behaviour
+		ds := model3d.Floater97DefaultSolver()
+		if !checkDefault(ds) {
+			return nil
+		}
+		ds.MaxIters = 1 + rng.Intn(3)
+		ds.MSETolerance = 1e-2
+		func() {
+			defer func() { recover() }() // the preview's quality is its caller's business
+			model3d.Floater97(d.mesh, bmLib, wmLib, ds)
+		}()
+		if !checkDefault(model3d.Floater97DefaultSolver()) {
+			return nil
+		}
+		sdesc = "solver=nil after a preview with a loosened Floater97DefaultSolver()"
+		c.Count("floater.solver.nil_after_loosened_default", 1)
 	}
 	desc := fmt.Sprintf("Floater97(boundary=%s, weights=%s, %s)", bdesc, w.String(), sdesc)
 	var uvLib *model3d.CoordMap[C2]
